@@ -32,13 +32,13 @@ type segment struct {
 }
 
 type pipe struct { // one direction of one stream
-	queue    []segment
-	recv     []byte
-	finRecv  bool
-	finSent  bool
-	written  int64
-	deliv    int
-	cuts     []int64
+	queue   []segment
+	recv    []byte
+	finRecv bool
+	finSent bool
+	written int64
+	deliv   int
+	cuts    []int64
 }
 
 type NStream struct {
@@ -72,13 +72,13 @@ type NConn struct {
 
 // Delivery is handed to Net.OnDeliver just before a segment is applied.
 type Delivery struct {
-	From     *NConn // writer side
-	Stream   uint64
-	Index    int // global delivery index (0-based)
-	SIndex   int // index within this stream direction
-	Offset   int64
-	Data     []byte // may be mutated by the hook (corruption)
-	Fin      bool
+	From   *NConn // writer side
+	Stream uint64
+	Index  int // global delivery index (0-based)
+	SIndex int // index within this stream direction
+	Offset int64
+	Data   []byte // may be mutated by the hook (corruption)
+	Fin    bool
 }
 
 type Action int
